@@ -659,6 +659,9 @@ class ITerm2Image(GraphicsImage, metaclass=ITerm2ImageMeta):
                     )
                 )
 
+        if render_method == ANIM:  # Native animation is not applicable
+            render_method = WHOLE
+
         width, height = (
             self._get_minimal_render_size()
             if render_method == WHOLE
